@@ -3,7 +3,7 @@
    positive/N/Z/nat stay extracted Coq datatypes. No Extract Constant anywhere. *)
 From Coq Require Import ExtrOcamlBasic.
 From Coq Require Import NArith ZArith.
-From KV Require Import Model.Normalize Model.OutBS Model.InBS Model.Handoff Model.Writer Model.Reader Model.Names Gen.Names Model.Seq Model.BinCoder Model.Header Model.ZRLT Model.FPAQ Model.Container Model.XXHash Model.SBRT Model.Alphabet Model.RangeCodec.
+From KV Require Import Model.Normalize Model.OutBS Model.InBS Model.Handoff Model.Writer Model.Reader Model.Names Gen.Names Model.Seq Model.BinCoder Model.Header Model.ZRLT Model.FPAQ Model.Container Model.XXHash Model.SBRT Model.Alphabet Model.RangeCodec Model.ContainerG.
 From Coq Require Import List.
 Definition tr_get_type := get_type transform_type_of_name transform_lookup_uppercases.
 Definition tr_get_name := get_name transform_name_of_type.
@@ -16,5 +16,5 @@ Extraction "kvmodel.ml" tr_get_type tr_get_name en_get_type en_get_name N.add Z.
   OutBS.new_obs OutBS.write_bit OutBS.write_bits OutBS.write_array OutBS.close OutBS.written OutBS.o_out OutBS.o_calls
   Writer.init_w Writer.w_write Writer.w_close Writer.chunks Reader.init_r Reader.r_read Reader.close_r
   Handoff.init Handoff.step Handoff.first_error Handoff.all_done
-  RangeCodec.range_encode RangeCodec.range_decode Alphabet.alphabet_image Alphabet.alphabet_parse SBRT.sbrt_fwd SBRT.sbrt_inv XXHash.block_hash Container.write_stream Container.parse_stream FPAQ.fpaq_encode FPAQ.fpaq_decode ZRLT.zfwd ZRLT.zinv Header.header_fields Header.read_header bc_encode bc_decode Seq.mk_stage Seq.seq_forward Seq.seq_inverse
+  RangeCodec.range_encode RangeCodec.range_decode Alphabet.alphabet_image Alphabet.alphabet_parse SBRT.sbrt_fwd SBRT.sbrt_inv XXHash.block_hash Container.write_stream Container.parse_stream ContainerG.write_stream_e ContainerG.parse_stream_e FPAQ.fpaq_encode FPAQ.fpaq_decode ZRLT.zfwd ZRLT.zinv Header.header_fields Header.read_header bc_encode bc_decode Seq.mk_stage Seq.seq_forward Seq.seq_inverse
   InBS.new_ibs InBS.read_bit InBS.read_bits InBS.read_array InBS.iclose InBS.bits_read.
